@@ -12,7 +12,7 @@ LIMIT = 60.0
 RULE = ("triangle and tet meshes (small, incl. unused vertices; coordinates random / large / tiny / negative-zero / integer-valued; "
         "float32, float64; int32, int64) written by LaPy (VTK tria, VTK tet, FreeSurfer with and without header dictionaries) and read "
         "back; files produced by independent format printers (OFF with comments, VTK POLYGONS / CELLS / TRIANGLE_STRIPS with float or "
-        "double points, Gmsh 2.2 ASCII tetrahedra with 2-3 tags); EVERY line-prefix truncation of every such file; wrong-kind files; "
+        "double points, one or several strips, Gmsh 2.2 ASCII tetrahedra with 2-3 tags); EVERY line-prefix truncation of every such file (strips files: those with several strips); wrong-kind files; "
         "ev dictionaries with random field subsets, eigenvalue counts 1..6, eigenvector shapes (n,k) incl. k=1 and n=1, float32/64; "
         "vertex functions. distinct = hash of the case; non-trivial = mesh with >= 4 elements or ev file with eigenvectors")
 TRUSTED = ["Python str()/repr of floats and C strtod (np.fromfile text mode) round-trip binary64/binary32 values; nibabel write_geometry"]
@@ -412,6 +412,24 @@ def run_impl(case):
                     open(fxs, "w").write(sx)
                     rr, _e = _try(lambda: TriaMesh.read_vtk(fxs))
                     out["files"].append(["vtk_tria", sx, None if rr is None else [np.asarray(rr.v, dtype=float).tolist(), np.asarray(rr.t).tolist()]])
+            nv_ = len(case["v"])
+            if nv_ >= 5:
+                # several strips of five vertices (three triangles each) and every line-prefix of that file: what remains after
+                # a cut inside the strip section would still be enough for a TriaMesh, so it must be the reader that refuses
+                ns_ = 2 + case["strip_n"] % 2
+                ms = [[(2 * j + i) % nv_ for i in range(5)] for j in range(ns_)]
+                mt = [[s_[i - 2], s_[i - 1], s_[i]] if i % 2 == 0 else [s_[i - 1], s_[i - 2], s_[i]] for s_ in ms for i in range(2, 5)]
+                mtxt = print_vtk_strips(case["v"], ms)
+                f5 = os.path.join(d, "mstrip.vtk")
+                open(f5, "w").write(mtxt)
+                r, err = _try(lambda: TriaMesh.read_vtk(f5))
+                out["mstrips"] = err or _same_mesh(r, np.array(case["v"], dtype=np.float32), np.array(mt))
+                out["strips_trunc"] = _truncations(mtxt, (TriaMesh.read_vtk, ".vtk"), np.array(case["v"], dtype=np.float32),
+                                                   np.array(mt), 4, 5 + nv_ + 1 + ns_)
+                for sx in (mtxt, "".join(mtxt.splitlines(keepends=True)[:-1])):
+                    open(f5, "w").write(sx)
+                    rr, _e = _try(lambda: TriaMesh.read_vtk(f5))
+                    out["files"].append(["vtk_tria", sx, None if rr is None else [np.asarray(rr.v, dtype=float).tolist(), np.asarray(rr.t).tolist()]])
             if n >= 5:
                 # a strip of n >= 5 vertices denotes >= 3 triangles, the smallest mesh TriaMesh can hold
                 f4 = os.path.join(d, "strip.vtk")
@@ -584,7 +602,7 @@ def oracle(case, out):
     if ct in ("tria", "tet"):
         if out.get("vtk_rt") != "ok":
             bad(f"{ct}_vtk_write_read_round_trip", str(out.get("vtk_rt")))
-        for key in ("vtk_trunc", "off_trunc", "vtk_foreign_trunc", "gmsh_trunc", "fs_trunc"):
+        for key in ("vtk_trunc", "off_trunc", "vtk_foreign_trunc", "gmsh_trunc", "fs_trunc", "strips_trunc"):
             for item in out.get(key, []):
                 if item[1] == "ok":
                     continue          # the cut fell behind the element section: the same mesh is fine
@@ -601,6 +619,8 @@ def oracle(case, out):
             bad("foreign_vtk_polygons_load_to_described_mesh", str(out.get("vtk_foreign")), case["cells_kw"] + "_" + case["points_kw"])
         if out.get("strips", "ok") != "ok":
             bad("vtk_triangle_strips_load_to_described_mesh", str(out.get("strips")))
+        if out.get("mstrips", "ok") != "ok":
+            bad("vtk_triangle_strips_load_to_described_mesh", "several strips: " + str(out.get("mstrips")))
         if out.get("wrong_kind") != "ok":
             bad("wrong_kind_file_rejected", str(out.get("wrong_kind")))
     if ct == "tet":
